@@ -7,6 +7,7 @@ package webp
 
 import (
 	"bytes"
+	"encoding/binary"
 	"errors"
 	"fmt"
 	"image"
@@ -221,8 +222,21 @@ func encodeFrameForAnimation(img image.Image, isLossless bool, quality int) ([]b
 		bs, _, err := encodeLossless(img, opts)
 		return bs, err
 	}
-	bs, _, err := encodeLossy(img, opts)
-	return bs, err
+	bs, alphaData, _, err := encodeLossyWithAlpha(img, opts)
+	if err != nil || alphaData == nil {
+		return bs, err
+	}
+	// A lossy frame with transparency carries its alpha plane in an ALPH chunk
+	// in front of the colour bitstream; this is the frame-data layout the muxer
+	// splits into ALPH + VP8 sub-chunks.
+	out := make([]byte, 0, container.ChunkHeaderSize+len(alphaData)+1+len(bs))
+	out = binary.LittleEndian.AppendUint32(out, container.FourCCALPH)
+	out = binary.LittleEndian.AppendUint32(out, uint32(len(alphaData)))
+	out = append(out, alphaData...)
+	if len(alphaData)%2 != 0 {
+		out = append(out, 0)
+	}
+	return append(out, bs...), nil
 }
 
 // simpleEncodeForAnimation encodes an image as a complete simple (non-animated)
